@@ -29,6 +29,10 @@ pub fn gen(rng: &mut Rng, _index: u64) -> String {
         let cs: Vec<Coord<f64>> = g.coords_iter().collect();
         let fail = if rng.chance(1, 2) {
             "nofail".to_string()
+        } else if cs.len() >= 2 && rng.chance(1, 3) {
+            // two rejected coordinates (often one in the exterior and one in a hole / a later member): the error must be
+            // the one that comes first in traversal order, for every entry point
+            format!("failat2 {} {}", proto::coord(*rng.pick(&cs)), proto::coord(*rng.pick(&cs)))
         } else if !cs.is_empty() && rng.chance(5, 6) {
             format!("failat {}", proto::coord(*rng.pick(&cs)))
         } else {
@@ -123,13 +127,14 @@ fn eval_map(t: &mut Toks) -> R<String> {
     };
     let fail = match t.tok()? {
         "nofail" => None,
-        "failat" => Some(t.coord()?),
+        "failat" => Some(vec![t.coord()?]),
+        "failat2" => Some(vec![t.coord()?, t.coord()?]),
         x => return Err(format!("bad fail spec {}", x)),
     };
     let g = t.geom()?;
     let ff = |p: Coord<f64>| -> Result<Coord<f64>, Coord<f64>> {
         match fail {
-            Some(q) if p == q => Err(p),
+            Some(ref qs) if qs.contains(&p) => Err(p),
             _ => Ok(f.apply(p)),
         }
     };
